@@ -169,8 +169,10 @@ impl Run {
                 };
                 GovMsg::Vote { proposal_id: id.parse().unwrap_or(1), option }.into()
             }
-            "self_update_admins" | "self_freeze" | "self_increase" | "self_set_perm" => {
+            "self_update_admins" | "self_freeze" | "self_increase" | "self_set_perm" | "self_execute" => {
                 let inner: ExecuteMsg<Empty> = match k.as_str() {
+                    // the proxy is asked to relay a batch to itself: the nested call's sender is the proxy
+                    "self_execute" => ExecuteMsg::Execute { msgs: vec![BankMsg::Send { to_address: to, amount: coins }.into()] },
                     "self_update_admins" => ExecuteMsg::UpdateAdmins {
                         admins: tag.split(',').filter(|x| !x.is_empty()).map(|x| self.target(x)).collect(),
                     },
@@ -207,6 +209,12 @@ impl Run {
                 ("self_update_admins".into(), "proxy".into(), vec![], admins.iter().map(|a| self.w.name_of(a)).collect::<Vec<_>>().join(","))
             }
             ExecuteMsg::Freeze {} => ("self_freeze".into(), "proxy".into(), vec![], "".into()),
+            ExecuteMsg::Execute { msgs } => match msgs.as_slice() {
+                [CosmosMsg::Bank(BankMsg::Send { to_address, amount })] => {
+                    ("self_execute".into(), self.w.name_of(to_address), amount.iter().map(|c| self.coin_down(c)).collect(), "".into())
+                }
+                _ => return None,
+            },
             ExecuteMsg::IncreaseAllowance { spender, amount, expires } => {
                 let tag = match expires {
                     None => "keep",
@@ -389,7 +397,7 @@ impl Run {
         let admins: Vec<String> = cfg["admins"].as_array().unwrap().iter().map(|a| run.target(a.as_str().unwrap())).collect();
         let msg = InstantiateMsg { admins, mutable: cfg["mutable"].as_bool().unwrap_or(true) };
         let r = call(&mut run.w, |w| {
-            let a = w.app.instantiate_contract(code_id, creator.clone(), &msg, &[], "proxy", None)?;
+            let a = w.app.instantiate_contract(code_id, creator.clone(), &msg, &[], "proxy", Some(creator.to_string()))?;
             w.register("proxy", &a);
             Ok(cw_multi_test::AppResponse::default())
         });
@@ -401,6 +409,22 @@ impl Run {
             return None;
         }
         run.proxy = Some(run.w.addr("proxy"));
+        // a deployment made by an older release: its version stamp and, optionally, an admin recorded in a
+        // spelling today's address validation would refuse (the stored list is what counts, C17)
+        let ver = cfg.get("ver").and_then(|x| x.as_str()).unwrap_or("cur");
+        if ver != "cur" {
+            let p = run.px();
+            let name = if flavour == "whitelist" { "crates.io:cw1-whitelist" } else { "crates.io:cw1-subkeys" };
+            let v = json!({"contract": name, "version": ver});
+            run.w.app.wasm_sudo(p.clone(), &RawOp::RawSet { key: Binary::from(b"contract_info".to_vec()), value: Binary::from(serde_json::to_vec(&v).unwrap()) }).unwrap();
+            if cfg.get("oldadmin").and_then(|x| x.as_bool()).unwrap_or(false) {
+                let cur = run.w.app.dump_wasm_raw(&p).into_iter().find(|(k, _)| k.as_slice() == b"admin_list").map(|(_, v)| v).expect("admin list");
+                let mut l: Value = serde_json::from_slice(&cur).unwrap();
+                l["admins"].as_array_mut().unwrap().push(json!("legacy_admin"));
+                run.w.app.wasm_sudo(p, &RawOp::RawSet { key: Binary::from(b"admin_list".to_vec()), value: Binary::from(serde_json::to_vec(&l).unwrap()) }).unwrap();
+                run.w.names.insert("legacy_admin".into(), "legacy".into());
+            }
+        }
         let obs = run.observe();
         let anom = run.sc.take_anomalies();
         out.emit(&json!({"act":"reset","sys":"cw1","run":run_no,"cfg":cfgv,"ok":true,"ret":true,"panic":false,"err":"","can":false,
@@ -445,6 +469,12 @@ impl Run {
             "advance" => {
                 self.w.advance(n(&args, "dh"), n(&args, "dt"));
                 ok_out()
+            }
+            "migrate" => {
+                // the chain admin installs the current code again (cw1-subkeys has a migrate entry point)
+                let creator = self.w.addr("creator");
+                let code = self.w.app.store_code(proxy_code(&self.flavour));
+                call(&mut self.w, |w| w.app.migrate_contract(creator, p.clone(), &Empty {}, code))
             }
             "execute" | "canq" => {
                 let msgs: Vec<CosmosMsg> = args["msgs"].as_array().unwrap().iter().map(|m| self.encode(m)).collect();
@@ -516,7 +546,7 @@ impl Run {
         }
         let anom = self.sc.take_anomalies();
         // ret: the proxy's own entry point returned Ok (differs from ok only when a relayed self-call failed)
-        let ret = if act == "advance" { true } else { RET.with(|x| x.get()) };
+        let ret = if act == "advance" { true } else if act == "migrate" { r.ok } else { RET.with(|x| x.get()) };
         if r.ok && !ret {
             self.sc.anomalies.borrow_mut().push("committed although the entry point failed".into());
         }
@@ -611,7 +641,8 @@ fn rand_msg(rng: &mut Rng, left: &mut [i64; 2], top: i64, send_bias: u64) -> Val
 
 /// a re-entrant call: the proxy is asked to call one of its own administrative entry points
 fn rand_self(rng: &mut Rng) -> Value {
-    match rng.below(6) {
+    match rng.below(7) {
+        6 => json!({"k":"self_execute","to":"r1","coins":[{"d": *rng.pick(&DENOMS), "a": rng.range(1, 3)}],"tag":""}),
         0 | 1 | 2 => {
             let nadm = rng.below(3);
             let lst: Vec<&str> = (0..nadm).map(|_| *rng.pick(&ADDRS)).collect();
@@ -655,7 +686,8 @@ fn rand_admin(rng: &mut Rng, obs: &Value, p_num: u64, p_den: u64) -> String {
 }
 
 fn rand_probe(rng: &mut Rng, obs: &Value, memo: &std::collections::BTreeMap<String, [i64; 2]>, top: i64) -> Value {
-    let by = rand_caller(rng, obs, memo);
+    // now and then the proxy's own address is the caller (what a relayed self-addressed Execute looks like from inside)
+    let by = if rng.chance(1, 12) { "proxy".to_string() } else { rand_caller(rng, obs, memo) };
     let mut left = aim(obs, memo, &by);
     let m = rand_msg(rng, &mut left, top, 55);
     json!({"act":"canq","by":by,"args":{"msgs":[m]}})
@@ -681,7 +713,8 @@ fn rand_cfg(rng: &mut Rng) -> Value {
     if rng.chance(1, 40) {
         admins.push("bad");
     }
-    json!({"flavour":flavour,"admins":admins,"mutable":!rng.chance(1, 6),"scale":scale})
+    let ver = *rng.pick(&["cur", "cur", "0.13.4", "1.1.2"]);
+    json!({"flavour":flavour,"admins":admins,"mutable":!rng.chance(1, 6),"scale":scale,"ver":ver,"oldadmin":ver != "cur" && rng.chance(1, 2)})
 }
 
 pub fn random_run(rng: &mut Rng, run_no: u64, len: usize, out: &mut Out) {
@@ -695,7 +728,7 @@ pub fn random_run(rng: &mut Rng, run_no: u64, len: usize, out: &mut Out) {
         i += 1;
         let st = match rng.below(100) {
             0..=37 => {
-                let by = rand_caller(rng, &obs, &run.memo);
+                let by = if rng.chance(1, 25) { "proxy".to_string() } else { rand_caller(rng, &obs, &run.memo) };
                 let mut left = aim(&obs, &run.memo, &by);
                 let nm = match rng.below(20) {
                     0 | 1 => 0,
@@ -755,6 +788,7 @@ pub fn random_run(rng: &mut Rng, run_no: u64, len: usize, out: &mut Out) {
                 msgs.push(rand_self(rng));
                 json!({"act":"execute","by":by,"args":{"msgs":msgs}})
             }
+            89 if run.flavour == "subkeys" => json!({"act":"migrate","by":"creator","args":{"x":0}}),
             _ => json!({"act":"advance","by":"env","args":{"dh":rng.range(0,2),"dt":rng.range(0,12)}}),
         };
         obs = run.step(&st, out);
